@@ -107,6 +107,8 @@ class Fmt(object):
                 exp = int(v)
             elif typ == "ratio":
                 exp = ratio(v)
+            elif typ == "optratio":
+                exp = None if v == "None" else ratio(v)
             elif typ == "optint":
                 exp = None if v == "None" else int(v)
             elif typ == "str":
@@ -918,7 +920,148 @@ class AacFmt(Fmt):
         return out
 
 
-FORMATS = [WavPackFmt(), MonkeysAudioFmt(), OptimFROGFmt(), TrueAudioFmt(), TakFmt(), MusepackFmt(), AacFmt()]
+# ----------------------------------------------------------------------------------------------
+# AC-3 / E-AC-3
+
+def ac3_head(fscod=0, fsc=20, bsid=8, bsmod=0, acmod=2, mix=(1, 1, 1), lfeon=0, groups=None, cb=1, tc=(None, None), addbsi=None, crc1=0):
+    """syncinfo + bsi as bits; groups: per programme (dialnorm, compr or None, langcod or None, audprod or None)"""
+    w = BW().put(0x0B77, 16).put(crc1, 16).put(fscod, 2).put(fsc, 6).put(bsid, 5).put(bsmod, 3).put(acmod, 3)
+    if (acmod & 1) and acmod != 1:
+        w.put(mix[0], 2)
+    if acmod & 4:
+        w.put(mix[1], 2)
+    if acmod == 2:
+        w.put(mix[2], 2)
+    w.put(lfeon, 1)
+    groups = groups or [(27, None, None, None)] * (2 if acmod == 0 else 1)
+    for dn, compr, lang, prod in groups:
+        w.put(dn, 5)
+        for x, bits in ((compr, 8), (lang, 8), (prod, 7)):
+            if x is None:
+                w.put(0, 1)
+            else:
+                w.put(1, 1).put(x, bits)
+    w.put(cb, 2)
+    for t in tc:
+        w.put(0 if t is None else 1, 1)
+    for t in tc:
+        if t is not None:
+            w.put(t, 14)
+    if addbsi is None:
+        w.put(0, 1)
+    else:
+        w.put(1, 1).put(len(addbsi) - 1, 6)
+        for c in addbsi:
+            w.put(c, 8)
+    return w
+
+
+def eac3_head(strmtyp=0, sid=0, frmsiz=383, fscod=0, fscod2=0, nbc=3, acmod=2, lfeon=0, bsid=16, dialnorm=27, compr=None, chanmap=None, mixmdate=0,
+              info=None, convsync=0, blkid=None, addbsi=None):
+    w = BW().put(0x0B77, 16).put(strmtyp, 2).put(sid, 3).put(frmsiz, 11).put(fscod, 2)
+    if fscod == 3:
+        w.put(fscod2, 2)
+        nbc = 3
+    else:
+        w.put(nbc, 2)
+    w.put(acmod, 3).put(lfeon, 1).put(bsid, 5)
+    for _ in range(2 if acmod == 0 else 1):
+        w.put(dialnorm, 5)
+        if compr is None:
+            w.put(0, 1)
+        else:
+            w.put(1, 1).put(compr, 8)
+    if strmtyp == 1:
+        if chanmap is None:
+            w.put(0, 1)
+        else:
+            w.put(1, 1).put(chanmap, 16)
+    w.put(mixmdate, 1)
+    if mixmdate:
+        return w
+    if info is None:
+        w.put(0, 1)
+    else:
+        w.put(1, 1).put(info & 31, 5)
+        if acmod == 2:
+            w.put(5, 4)
+        elif acmod >= 6:
+            w.put(2, 2)
+        for _ in range(2 if acmod == 0 else 1):
+            if info & 32:
+                w.put(1, 1).put(0xA5, 8)
+            else:
+                w.put(0, 1)
+        if fscod < 3:
+            w.put(1, 1)
+    if strmtyp == 0 and nbc == 3:
+        w.put(convsync, 1)
+    if strmtyp == 2 and nbc != 3:
+        if blkid is None:
+            w.put(0, 1)
+        else:
+            w.put(1, 1).put(blkid, 6)
+    if addbsi is None:
+        w.put(0, 1)
+    else:
+        w.put(1, 1).put(len(addbsi) - 1, 6)
+        for c in addbsi:
+            w.put(c, 8)
+    return w
+
+
+class Ac3Fmt(Fmt):
+    name = "AC3"
+    hm_kinds = ("AC3", "EAC3")
+    info_path = "mutagen.ac3.AC3Info"
+    file_path = "mutagen.ac3.AC3"
+    attrs = (("channels", "channels", "int"), ("sample_rate", "sample_rate", "int"), ("bitrate", "bitrate", "int"),
+             ("length", "length", "optratio"), ("codec", "codec", "text"))
+
+    def raw(self, rng, scale):
+        out = []
+        pad = b"\x21" * 40
+        for fscod in range(4):
+            for fsc in list(range(0, 40)) + [63]:
+                out.append(("ac3-rate", ac3_head(fscod=fscod, fsc=fsc, acmod=rng.randrange(8), lfeon=rng.randrange(2)).bytes() + pad))
+        for bsid in range(0, 32):
+            out.append(("bsid", ac3_head(bsid=bsid).bytes() + pad))
+            out.append(("bsid", eac3_head(bsid=bsid).bytes() + pad))
+        for acmod in range(8):
+            for lfe in (0, 1):
+                for groups in (None, [(1, 0x55, None, None)] * 2, [(31, None, 0xFF, 0x7F)] * 2, [(9, 1, 2, 3)] * 2):
+                    g = groups if groups is None else groups[:2 if acmod == 0 else 1]
+                    out.append(("ac3-acmod", ac3_head(acmod=acmod, lfeon=lfe, groups=g, mix=(rng.randrange(4), rng.randrange(4), rng.randrange(4))).bytes() + pad))
+                for info in (None, 7, 32 | 9):
+                    out.append(("eac3-acmod", eac3_head(acmod=acmod, lfeon=lfe, info=info, compr=rng.choice([None, 3]), fscod=rng.randrange(4), fscod2=rng.randrange(3)).bytes() + pad))
+        for tc in ((None, None), (5, None), (None, 9), (0x3FFF, 0x3FFF)):
+            for addbsi in (None, b"x", b"y" * 64):
+                out.append(("ac3-tail", ac3_head(tc=tc, addbsi=addbsi).bytes() + pad * 3))
+        for strmtyp in range(4):
+            for nbc in range(4):
+                for extra in (dict(), dict(mixmdate=1), dict(chanmap=0xFFFF), dict(blkid=33), dict(addbsi=b"z" * 10), dict(convsync=1)):
+                    out.append(("eac3-type", eac3_head(strmtyp=strmtyp, nbc=nbc, **extra).bytes() + pad))
+        for fscod in range(4):
+            for f2 in range(4):
+                out.append(("eac3-rate", eac3_head(fscod=fscod, fscod2=f2).bytes() + pad))
+        for fs in edges(11):
+            out.append(("eac3-frmsiz", eac3_head(frmsiz=fs, nbc=rng.randrange(4), fscod=rng.randrange(3)).bytes() + pad))
+        base = ac3_head(acmod=0, groups=[(9, 1, 2, 3)] * 2, tc=(1, 2), addbsi=b"abc").bytes()
+        for k in range(0, len(base) + 2):
+            out.append(("ac3-truncated", (base + b"\0\0")[:k]))
+        base = eac3_head(acmod=0, info=32 | 5, compr=4, addbsi=b"abc").bytes()
+        for k in range(0, len(base) + 2):
+            out.append(("eac3-truncated", (base + b"\0\0")[:k]))
+        out.append(("addbsi-beyond-eof", ac3_head(addbsi=b"x" * 64).bytes()[:12]))
+        for m in (b"\x0b\x76", b"\x77\x0b", b"\x0b", b""):
+            out.append(("magic", m + ac3_head().bytes()[2:] + pad))
+        for _ in range(60 * scale):
+            out.append(("random", b"\x0b\x77" + rbytes(rng, rng.randrange(0, 40))))
+            out.append(("random-bsid", b"\x0b\x77" + rbytes(rng, 3) + bytes([rng.randrange(17) << 3 | rng.randrange(8)]) + rbytes(rng, rng.randrange(0, 30))))
+        return out
+
+
+FORMATS = [WavPackFmt(), MonkeysAudioFmt(), OptimFROGFmt(), TrueAudioFmt(), TakFmt(), MusepackFmt(), AacFmt(), Ac3Fmt()]
 
 
 # ----------------------------------------------------------------------------------------------
